@@ -492,6 +492,16 @@ let c17 op a =
   | "c19.esc_doc", [h] -> "(ok " ^ hex (esc_doc (unhex h)) ^ ")"
   | _ -> "(unknown-op " ^ op ^ ")"
 
+(* ---------- C20 ---------- *)
+let c20 op a =
+  match op, a with
+  | "c20.inhabits", [e; ts; _; _; vs] ->
+      if vs = "err" then "(err)" else
+      let env = env_of e and ts = tys_of ts and vs = vals_of vs in
+      if List.length ts <> List.length vs then "(arity)"
+      else if List.for_all2 (fun v t -> has_type env v t) vs ts then "(ok)" else "(not-an-inhabitant)"
+  | _ -> "(unknown-op " ^ op ^ ")"
+
 let dispatch (op : string) (a : string list) : string =
   let base = if String.length op > 2 && String.sub op 0 2 = "m." then String.sub op 2 (String.length op - 2) else op in
   let prop = try String.sub base 0 (String.index base '.') with Not_found -> base in
@@ -506,6 +516,7 @@ let dispatch (op : string) (a : string list) : string =
   | "c13" | "c14" -> c14 op a
   | "c15" -> c15 op a
   | "c17" | "c19" -> c17 op a
+  | "c20" -> c20 op a
   | "c16" -> c16 op a
   | _ -> "(unknown-op " ^ op ^ ")"
 
